@@ -284,7 +284,17 @@ def run(tier, out):
     judge = Judge(wd)
     tot = collections.Counter()
     cov = {}
+    import time
+    t0 = time.time()
+    phases = {}
+
+    def phase(name):
+        nonlocal t0
+        phases[name] = round(time.time() - t0, 1)
+        t0 = time.time()
+    phase("build")
     model_check(out, wd, tier, tot, cov)
+    phase("B3_tlc")
 
     stats = {k: dict(cases=0, steps=0, conform=0, drift=0, rejected=0, unjudged=0) for k in ("seq", "conc")}
     p_samples = {2: [], 3: []}
@@ -330,6 +340,7 @@ def run(tier, out):
             out.sample({"binding": "B1-sequential", "n": n, "calls_with_expected_results": cases[i]["acts"][:8],
                         "observed": results[i].get("obs", [])[:8]})
 
+    phase("B1_sequential")
     # ---- B1-concurrent
     for n in (2, 3):
         if n == 2 or not quick:
@@ -342,7 +353,7 @@ def run(tier, out):
         else:
             paths = []
             how = ""
-        sim = simulate(n, 400 if quick else 4000, 60, wd, "sim%d" % n, core.seed())
+        sim = simulate(n, (400 if n == 2 else 1500) if quick else 4000, 60, wd, "sim%d" % n, core.seed())
         paths += sim
         tot["tlc_simulated_behaviours"] += len(sim)
         cases, results = run_cases(n, "conc", paths, "conc%d" % n)
@@ -357,6 +368,7 @@ def run(tier, out):
             out.sample({"binding": "B1-concurrent", "n": n, "schedule_with_expected_positions": cases[i]["acts"][:14],
                         "observed": results[i].get("obs", [])[:14]})
 
+    phase("B1_concurrent")
     # ---- P kept alive on conforming executions: a sample of them through the judge as well
     for n in (2, 3):
         vs = judge.verdicts(n, p_samples[n])
@@ -366,8 +378,11 @@ def run(tier, out):
                               {"component": "TimeoutCoord-trace", "n": n, "ev": h})
         tot["p_sampled_histories"] += len(p_samples[n])
 
+    phase("P_samples")
     # ---- B2 stress
     stress(out, judge, wd, rng, tot, runs=300 if quick else 4000, ops=10 if quick else 14)
+    phase("B2_stress")
+    core.log("[C17] phase wall times (s): %s" % phases)
 
     for mode in ("seq", "conc"):
         st = stats[mode]
@@ -385,6 +400,7 @@ def run(tier, out):
             stress_overlapping_calls=tot["stress_overlap"],
             p_trace_events_validated=judge.events, p_sampled_histories=tot["p_sampled_histories"],
             model_drift=stats["seq"]["drift"] + stats["conc"]["drift"],
+            phase_wall_s=phases,
             replayed_atomic_steps_by_kind=dict(sorted(tot_kinds.items())),
             action_coverage={a: {"distinct": d, "taken": t} for a, (d, t) in sorted(cov.items())},
             actions_never_taken=never, exhaustive=True,
